@@ -419,6 +419,7 @@ def r4_lookup(ctx, R, opener):
     units = {opener, R["validate"]} | {f["path"] for f in ctx.facts.fns.values() if f["path"].split("::")[-1] == "should_gzip"}
     outs = ctx.px(co, inline=helper_inline(ctx, own=(R["dir"], R["node"]), never=units), key="helpers")
     cap_ok = False
+    const_seen = set()
     blocking_defs = set()
     sg_caps = set()
     for o in outs:
@@ -437,6 +438,13 @@ def r4_lookup(ctx, R, opener):
                             auto = [v for tt, v in o.cons.known.items() if isinstance(tt, tuple) and tt[0] == "field" and tt[2] == R["auto_f"]]
                             if auto == [1] and isinstance(t, tuple) and t[0] == "call" and t[1].split("::")[-1] == "should_gzip":
                                 cap_ok = True
+                            # (the switch was already branched on before the hand-off - e.g. to size the buffer -: on each such path
+                            # it is the constant the negotiation call is known to have returned there)
+                            sgk = [v for tt, v in o.cons.known.items() if isinstance(tt, tuple) and tt[0] == "call" and tt[1].split("::")[-1] == "should_gzip"]
+                            if auto == [1] and is_const(t) and sgk == [t[1]]:
+                                const_seen.add(t[1])
+                                if const_seen == {0, 1}:
+                                    cap_ok = True
                             if auto == [0] and t != const(0):
                                 ctx.violation("C19.R4", "C19.R4|gzip-without-auto", "the .gz lookup can be enabled although auto_gzip is off")
     if cap_ok:
@@ -495,6 +503,9 @@ def r4_lookup(ctx, R, opener):
     OBS = Observers(ctx, R)
     if not OBS.ok:
         return
+    # (the captured lookup switch is a field of the closure environment; when a maintainer names that local like the
+    # directory's setting, the two must not be confused: the switch is the capture read directly off the environment)
+    OBS.switch_cap = sg_cap
     nrows = 0
     gzflag_rows = 0
     for o in outs:
@@ -632,24 +643,34 @@ class Observers:
             return
         self.enc, self.aeh = enc[0], aeh[0]
 
+    switch_cap = None
+
+    def _is_setting(self, t):
+        """a read of the directory's automatic-gzip field (not the closure's captured switch of the same name)"""
+        if not (isinstance(t, tuple) and len(t) == 3 and t[0] == "field" and t[2] == self.R["auto_f"]):
+            return False
+        if self.switch_cap == self.R["auto_f"] and t[1] in (("deref", ("param", 1)), ("param", 1)):
+            return False
+        return True
+
     def _subst(self, t, a):
         """the directory's own setting, wherever the node copied it from, replaced by the constant a"""
         if not isinstance(t, tuple) or not t:
             return t
-        if t[0] == "field" and len(t) == 3 and t[2] == self.R["auto_f"]:
+        if self._is_setting(t):
             return const(a)
         return tuple(self._subst(x, a) if isinstance(x, tuple) else x for x in t)
 
     def _has_auto(self, t):
         if not isinstance(t, tuple) or not t:
             return False
-        if t[0] == "field" and len(t) == 3 and t[2] == self.R["auto_f"]:
+        if self._is_setting(t):
             return True
         return any(self._has_auto(x) for x in t if isinstance(x, tuple))
 
     def of(self, node, o, only=None):
         """{a: report} for every value a of the directory's automatic-gzip setting that row o allows"""
-        known = {v for t_, v in o.cons.known.items() if isinstance(t_, tuple) and t_[0] == "field" and len(t_) == 3 and t_[2] == self.R["auto_f"]}
+        known = {v for t_, v in o.cons.known.items() if self._is_setting(t_)}
         feas = sorted(known) if known else [0, 1]
         if only is not None:
             feas = [a for a in feas if a in only]
